@@ -42,6 +42,7 @@ type defProg struct {
 	FuncSrc bool `json:"funcSrc"`
 	Upd     bool `json:"upd"`
 	IgnoreB bool `json:"ignoreB"`
+	ZSkip   bool `json:"zskip"`
 }
 
 type structScen struct {
@@ -100,7 +101,7 @@ func cmdStruct(args []string) {
 	b := hx.NewBatch(*work)
 	b.WriteGoMod()
 	var src strings.Builder
-	src.WriteString("package p\n\nimport \"" + b.Mod + "/q\"\n\nvar _ q.TQ\n\nfunc Fn(x int) int { return x }\n\ntype DS struct {\n\tA int\n\tB int\n}\ntype DT struct {\n\tA int\n\tB int\n}\ntype FPS struct{ V int }\ntype UN struct{ X int }\ntype US struct {\n\tA int\n\tN UN\n\tP *int\n\tL []int\n}\ntype UT struct {\n\tA int\n\tN UN\n\tP *int\n\tL []int\n}\n")
+	src.WriteString("package p\n\nimport \"" + b.Mod + "/q\"\n\nvar _ q.TQ\n\nfunc Fn(x int) int { return x }\n\ntype DS struct {\n\tA int\n\tB int\n}\ntype DT struct {\n\tA int\n\tB int\n}\ntype FPS struct{ V int }\ntype UN struct{ X int }\ntype US struct {\n\tA int\n\tN UN\n\tP *int\n\tL []int\n}\ntype UT struct {\n\tA  int\n\tN  UN\n\tP  *int\n\tL  []int\n\tLS []string\n}\n\nfunc ToS(v []int) []string {\n\tif v == nil {\n\t\treturn []string{\"nil\"}\n\t}\n\treturn []string{\"7\"}\n}\n\ntype Money struct{ V int }\ntype Price struct{ V int }\ntype Cost struct{ V int }\ntype DS2 struct {\n\tA int\n\tM Money\n\tN Money\n}\ntype DT2 struct {\n\tA int\n\tM Price\n\tN Cost\n}\n\nfunc NewT2() *DT2 { return &DT2{A: 100} }\n")
 	type drvCall struct {
 		Args []any `json:"args"`
 		Dump []int `json:"dump"`
@@ -276,16 +277,23 @@ func cmdStruct(args []string) {
 			if p.SrcPtr && !p.TgtPtr {
 				src.WriteString("\t// goverter:useZeroValueOnPointerInconsistency\n")
 			}
+			if p.ZSkip {
+				src.WriteString("\t// goverter:update:ignoreZeroValueField\n")
+			}
 			if p.IgnoreB {
 				src.WriteString("\t// goverter:ignore B\n")
 			}
 			fmt.Fprintf(&src, "\tConv(source %s) %s\n}\n", st, tt)
 			var val any = stv(lit(5), lit(6))
-			ins := []any{val}
+			var zb any = stv(lit(5), lit(0))
+			ins := []any{val, zb}
 			if p.SrcPtr {
-				ins = []any{ptrv(val), nilv()}
+				ins = []any{ptrv(val), ptrv(zb), nilv()}
 			}
 			drvLines[i]["ins"] = ins
+		case "default-rebuild":
+			fmt.Fprintf(&src, "\n// goverter:converter\n%stype C%d interface {\n\t// goverter:default NewT2\n\tConv(source *DS2) *DT2\n}\n", head(i), i)
+			drvLines[i]["ins"] = []any{nilv()}
 		case "update":
 			var p updProg
 			hx.Must(json.Unmarshal(s.Prog, &p))
@@ -307,6 +315,7 @@ func cmdStruct(args []string) {
 			if p.IgnoreA {
 				src.WriteString("\t// goverter:ignore A\n")
 			}
+			src.WriteString("\t// goverter:map L LS | ToS\n")
 			st := "US"
 			if p.SrcPtr {
 				st = "*US"
@@ -317,7 +326,7 @@ func cmdStruct(args []string) {
 			}
 			fmt.Fprintf(&src, "\tUpdate(source %s, target *UT)%s\n}\n", st, ret)
 			pre := func() any {
-				return ptrv(stv(lit(9), stv(lit(9)), ptrv(lit(9)), map[string]any{"k": "s", "a": "i", "es": []any{lit(9)}}))
+				return ptrv(stv(lit(9), stv(lit(9)), ptrv(lit(9)), map[string]any{"k": "s", "a": "i", "es": []any{lit(9)}}, map[string]any{"k": "s", "a": "i", "es": []any{map[string]any{"k": "b", "tok": "#9"}}}))
 			}
 			calls := []drvCall{}
 			for _, nz := range s.Vals {
@@ -431,16 +440,28 @@ func cmdStruct(args []string) {
 				}
 			}
 			obs.Write(base)
+		case "default-rebuild":
+			base["prog"] = s.Prog
+			base["res"] = map[string]any{"nil": true, "A": 0}
+			for _, r := range byID[i] {
+				nExec++
+				if r["panic"] != true {
+					if out := r["out"].(map[string]any); out["k"] == "p" {
+						base["res"] = map[string]any{"nil": false, "A": litOf(out["e"].(map[string]any)["fs"].([]any)[0])}
+					}
+				}
+			}
+			obs.Write(base)
 		case "default":
 			if o.Gen != "ok" || badc {
-				base["prog"], base["panic"], base["srcNil"], base["res"] = s.Prog, false, false, map[string]any{"nil": true, "A": 0, "B": 0}
+				base["prog"], base["panic"], base["srcNil"], base["zeroB"], base["res"] = s.Prog, false, false, false, map[string]any{"nil": true, "A": 0, "B": 0}
 				obs.Write(base)
 				continue
 			}
 			for _, r := range byID[i] {
 				nExec++
 				j := int(r["j"].(float64))
-				rec := map[string]any{"id": i, "kind": "default", "gen": o.Gen, "why": "", "compiles": true, "prog": s.Prog, "panic": r["panic"] == true, "srcNil": dprogs[i].SrcPtr && j == 1}
+				rec := map[string]any{"id": i, "kind": "default", "gen": o.Gen, "why": "", "compiles": true, "prog": s.Prog, "panic": r["panic"] == true, "srcNil": dprogs[i].SrcPtr && j == 2, "zeroB": j == 1}
 				res := map[string]any{"nil": true, "A": 0, "B": 0}
 				if r["panic"] != true {
 					out := r["out"].(map[string]any)
@@ -457,7 +478,7 @@ func cmdStruct(args []string) {
 			}
 		case "update":
 			if o.Gen != "ok" || badc {
-				base["prog"], base["panic"], base["srcNil"], base["nonzero"], base["post"] = s.Prog, false, false, []string{}, []string{}
+				base["prog"], base["panic"], base["srcNil"], base["nonzero"], base["post"] = s.Prog, false, false, []string{}, []string{"other", "other", "other", "other", "other"}
 				obs.Write(base)
 				continue
 			}
@@ -472,7 +493,7 @@ func cmdStruct(args []string) {
 					nz = s.Vals[j]
 				}
 				rec["nonzero"] = nz
-				post := []string{"other", "other", "other", "other"}
+				post := []string{"other", "other", "other", "other", "other"}
 				if r["panic"] != true {
 					t := r["after"].([]any)[0].(map[string]any)["e"].(map[string]any)["fs"].([]any)
 					want := func(f string) int {
@@ -512,6 +533,19 @@ func cmdStruct(args []string) {
 							post[3] = cls(litOf(es[0]), 7)
 							if litOf(es[0]) == 7 && !has(nz, "L") {
 								post[3] = "other"
+							}
+						}
+					}
+				}
+				if r["panic"] != true {
+					t := r["after"].([]any)[0].(map[string]any)["e"].(map[string]any)["fs"].([]any)
+					if ls, ok := t[4].(map[string]any); ok && ls["k"] == "s" {
+						if es := ls["es"].([]any); len(es) == 1 {
+							switch es[0].(map[string]any)["tok"] {
+							case "#9":
+								post[4] = "keep"
+							case "#7":
+								post[4] = "conv"
 							}
 						}
 					}
